@@ -719,6 +719,15 @@ func (sp *Specs) loadSpecFile(path, pkg string, trustedFile bool) error {
 				anchor = strings.TrimSpace(rest[ai+4:])
 				rest = strings.TrimSpace(rest[:ai])
 			}
+			var univ []string
+			if fi := strings.LastIndex(rest, " forall "); fi >= 0 && !strings.Contains(rest[fi:], "::") {
+				// use lemma(args) forall v, w: the lemma holds for all parameter values, so it may be
+				// assumed universally quantified over the named integer variables
+				for _, v := range strings.Split(rest[fi+8:], ",") {
+					univ = append(univ, strings.TrimSpace(v))
+				}
+				rest = strings.TrimSpace(rest[:fi])
+			}
 			var guard *Expr
 			if gi := strings.Index(rest, " when "); gi >= 0 {
 				g, err := parseExpr(strings.TrimSpace(rest[gi+6:]))
@@ -734,6 +743,9 @@ func (sp *Specs) loadSpecFile(path, pkg string, trustedFile bool) error {
 			}
 			if guard != nil {
 				e = &Expr{Op: "guarded", Args: []*Expr{guard, e}}
+			}
+			if len(univ) > 0 {
+				e = &Expr{Op: "universal", Vars: univ, Args: []*Expr{e}}
 			}
 			if anchor != "" && cur != nil {
 				cur.AnchoredUses = append(cur.AnchoredUses, AnchoredUse{Anchor: anchor, E: e})
